@@ -72,6 +72,19 @@ class C04(Suite):
                                 plan.append({"kind": "write", "idx": idx, "n": n, "comp": comp})
                         yield {"budget": 488, "tags": [{"name": "T", "type": ty, "len": L, "addr": None}], "plan": plan,
                                "via_client": idx == 2}
+        # a tag larger than 64 KiB: the byte offsets of its later fragments need more than 16 bits
+        for _ in range(1 if tier == "quick" else 4):
+            ty = rng.choice(["LINT", "LREAL", "ULINT"])
+            L = rng.choice([8300, 9000])
+            i = rng.choice([0, 0, 3])
+            yield {"budget": rng.choice([488, 1000]), "tags": [{"name": "T", "type": ty, "len": L, "addr": None}],
+                   "plan": [{"kind": "read", "idx": i, "n": L - i}], "via_client": True}
+        # element indices at the boundaries of the EPATH segment widths
+        for siz, tys in SIZED.items():
+            ty = tys[0]
+            plan = [{"kind": "read", "idx": i, "n": n} for i in (254, 255, 256, 257) for n in (1, 3)]
+            plan += [{"kind": "write", "idx": 256, "n": 2, "comp": [1, 1]}]
+            yield {"budget": 488, "tags": [{"name": "T", "type": ty, "len": 260, "addr": None}], "plan": plan, "via_client": siz % 4 == 0}
         # random large transfers at the default budget
         for _ in range(20 if tier == "quick" else 400):
             siz = rng.choice([1, 2, 4, 8])
